@@ -139,6 +139,30 @@ func detExtras(g *genNet, r *rand.Rand, o genOpts) {
 			must(mGen.AddReceiver(other))
 		}
 	}
+
+	// node ids (and names) are unique within ONE bus only: a further bus whose own nodes repeat
+	// the ids and names of nodes of the other buses (every bus has its own "gateway 1")
+	twin := acmelib.NewBus(g.name(r, "twin_bus", o))
+	must(g.net.AddBus(twin))
+	g.buses = append(g.buses, twin)
+	seenID := map[acmelib.NodeID]bool{}
+	for _, n := range append([]*acmelib.Node{}, g.nodes...) {
+		if seenID[n.ID()] || r.Intn(3) == 0 {
+			continue
+		}
+		seenID[n.ID()] = true
+		tn := acmelib.NewNode(n.Name(), n.ID(), 1)
+		if twin.AddNodeInterface(tn.Interfaces()[0]) != nil {
+			continue
+		}
+		g.nodes = append(g.nodes, tn)
+		if r.Intn(2) == 0 {
+			m := acmelib.NewMessage(g.name(r, "twin_msg", o), acmelib.MessageID(300+len(g.msgs)), 1+r.Intn(8))
+			if tn.Interfaces()[0].AddSentMessage(m) == nil {
+				g.msgs = append(g.msgs, m)
+			}
+		}
+	}
 }
 
 func (detStream) Gen(r *rand.Rand, tier string, idx int) []string {
